@@ -275,8 +275,13 @@ def run(ctx):
             elif r < 0.30:
                 s["swell"] = {"hs": C.fx(rng.uniform(0.5, 3)), "fp": C.fx(rng.uniform(0.05, 0.09)), "md": C.fx(rng.uniform(0, 360))}
             seas.append(s)
-        cases.append({"op": "janssen", "f": [C.fx(v) for v in fgrid], "dirs": [C.fx(v) for v in dirs], "seas": seas,
-                      "wind_type": typ, "params": params, "scan": [C.fx(v) for v in scan]})
+        case = {"op": "janssen", "f": [C.fx(v) for v in fgrid], "dirs": [C.fx(v) for v in dirs], "seas": seas,
+                "wind_type": typ, "params": params, "scan": [C.fx(v) for v in scan]}
+        if rng.random() < 0.5:
+            # re-use of one generator object with changed parameters (calibration sweep)
+            case["second"] = rng.choice([{"growth_parameter_betamax": C.fx(rng.choice([1.2, 1.75, 2.0]))},
+                                         {"charnock_constant": C.fx(rng.choice([0.006, 0.015, 0.02]))}])
+        cases.append(case)
         jan.append((typ, params, seas)); meta.append(("janssen", None))
 
     impl = ctx.impl("C10.py", {"cases": cases})["results"]
@@ -529,6 +534,27 @@ def run(ctx):
                     jj = [j for j in range(79) if (sc[j] > 0) != (sc[j + 1] > 0)][0]
                     if not (xs[jj] - 0.26 <= math.log(z) <= xs[jj + 1] + 0.26):
                         ctx.oracle_fail("returned roughness ln z0 = %.3f is not at the scanned root in [%.3f, %.3f]" % (math.log(z), xs[jj], xs[jj + 1]), rp)
+            sec = im.get("second")
+            if sec:
+                z2s = [C.unfx(v) for v in sec["z"]]
+                for p, pt in enumerate(sec["points"]):
+                    if "scan" not in pt:
+                        continue
+                    sc = [C.unfx(v) for v in pt["scan"]]
+                    clean = sc and all(math.isfinite(v) for v in sc)
+                    changes = sum(1 for a, b in zip(sc, sc[1:]) if (a > 0) != (b > 0)) if clean else -1
+                    ctx.count(["janssen-second-configuration", ji, p], clean and changes == 1)
+                    ctx.tally("janssen second configuration on the same generator object")
+                    if clean and changes == 1 and "lhs" in pt:
+                        lhs = C.unfx(pt["lhs"]); st = C.unfx(pt["stress"])
+                        rel = abs(lhs - st) / lhs if lhs > 0 else float("inf")
+                        if not rel <= 1e-4:
+                            rp = dict(rep); rp["point"] = p; rp["z_impl"] = z2s[p]; rp["first_configuration_z"] = iz[p]
+                            rp["note"] = "second roughness() call on the same generator object after update_parameters()"
+                            rp["rho_ustar2"] = lhs; rp["total_stress"] = st
+                            ctx.oracle_fail("after update_parameters() on the same generator object the returned roughness does not satisfy the "
+                                            "stress balance of the configuration in force: rho u*^2 = %r, total stress = %r (relative %.2e > 1e-4)"
+                                            % (lhs, st, rel), rp)
             if ji == 1:
                 ctx.sample({"janssen": {"wind_type": typ, "z0": iz[:4]}})
 
